@@ -26,6 +26,7 @@ type cfStmt struct {
 	a, b *cfStmt
 	cs   []*cfStmt // sw: the clauses {n: cond id, a: body}; b: the default body (nil: none)
 	dpos int       // sw: where the default clause is written
+	vals []int     // tsw clause: the case values
 }
 
 type cfGen struct {
@@ -63,6 +64,21 @@ func (g *cfGen) gen2(depth int, inLoop, inSw bool) *cfStmt {
 		s := &cfStmt{kind: "sw"}
 		for i := 1 + r.Intn(3); i > 0; i-- {
 			s.cs = append(s.cs, &cfStmt{kind: "case", n: g.id(), a: g.gen2(depth-1, inLoop, true)})
+		}
+		if r.Intn(5) > 1 {
+			s.b = g.gen2(depth-1, inLoop, true)
+			s.dpos = r.Intn(len(s.cs) + 1)
+		}
+		return s
+	}
+	if k >= 85 && k < 92 && r.Intn(3) == 0 { // tagged switch: switch tag(n) { case 0, 2: … default: … }
+		s := &cfStmt{kind: "tsw", n: g.id()}
+		for i := 1 + r.Intn(3); i > 0; i-- {
+			cl := &cfStmt{kind: "tcase", n: g.id(), a: g.gen2(depth-1, inLoop, true)}
+			for j := 1 + r.Intn(3); j > 0; j-- {
+				cl.vals = append(cl.vals, r.Intn(4))
+			}
+			s.cs = append(s.cs, cl)
 		}
 		if r.Intn(5) > 1 {
 			s.b = g.gen2(depth-1, inLoop, true)
@@ -164,6 +180,25 @@ func (s *cfStmt) src(sb *strings.Builder) {
 			fmt.Fprintf(sb, "t(%d)\n", s.n)
 		}
 		sb.WriteString("return\n")
+	case "tsw":
+		fmt.Fprintf(sb, "switch tag(%d) {\n", s.n)
+		for i, k := range s.cs {
+			if s.b != nil && s.dpos == i {
+				sb.WriteString("default:\n")
+				s.b.src(sb)
+			}
+			var vs []string
+			for _, v := range k.vals {
+				vs = append(vs, fmt.Sprint(v))
+			}
+			fmt.Fprintf(sb, "case %s:\n", strings.Join(vs, ", "))
+			k.a.src(sb)
+		}
+		if s.b != nil && s.dpos >= len(s.cs) {
+			sb.WriteString("default:\n")
+			s.b.src(sb)
+		}
+		sb.WriteString("}\n")
 	case "sw":
 		sb.WriteString("switch {\n")
 		for i, k := range s.cs {
@@ -228,6 +263,26 @@ func (s *cfStmt) proto(w *[]string, leaves map[string]bool) {
 		*w = append(*w, "ret", fmt.Sprint(s.n))
 		if s.n != 0 {
 			leaves[fmt.Sprintf("a%d", s.n)] = true
+		}
+	case "tsw": // the tag leaf stores into the hidden slot; every clause's condition leaf compares a value with it
+		*w = append(*w, "seq", "act", fmt.Sprint(s.n))
+		leaves[fmt.Sprintf("a%d", s.n)] = true
+		leaves[fmt.Sprintf("T%d", s.n)] = false // marks a<n> as a tag leaf
+		for _, k := range s.cs {
+			*w = append(*w, "swc", fmt.Sprint(k.n))
+			leaves[fmt.Sprintf("c%d", k.n)] = true
+			var vs []string
+			for _, v := range k.vals {
+				vs = append(vs, fmt.Sprint(v))
+			}
+			leaves[fmt.Sprintf("V%d=%d=%s", k.n, s.n, strings.Join(vs, "_"))] = false // c<k.n>: values against tag s.n
+			k.a.proto(w, leaves)
+		}
+		*w = append(*w, "swd")
+		if s.b != nil {
+			s.b.proto(w, leaves)
+		} else {
+			*w = append(*w, "act", "0")
 		}
 	case "sw": // swc c1 A1 (swc c2 A2 (… (swd D)))
 		for _, k := range s.cs {
@@ -323,6 +378,24 @@ func (m *cfRun) exec(s *cfStmt) string { // "", "brk", "cont"
 			m.trace = append(m.trace, fmt.Sprint(s.n))
 		}
 		return "ret"
+	case "tsw": // the tag is evaluated once (tag(n) prints n and yields n % 3); the first clause listing it, else the default
+		m.trace = append(m.trace, fmt.Sprint(s.n))
+		tagv := s.n % 3
+		body := s.b
+	find:
+		for _, k := range s.cs {
+			for _, v := range k.vals {
+				if v == tagv {
+					body = k.a
+					break find
+				}
+			}
+		}
+		if body != nil {
+			if o := m.exec(body); o != "brk" {
+				return o
+			}
+		}
 	case "sw": // the first clause whose condition holds, else the default; break leaves the switch only
 		body := s.b
 		for _, k := range s.cs {
@@ -340,7 +413,7 @@ func (m *cfRun) exec(s *cfStmt) string { // "", "brk", "cont"
 	return ""
 }
 
-const cfPrelude = "var rs0 = []int{}\nvar rs1 = []int{7}\nvar rs2 = []int{4, 5, 6}\nvar cnt = 0\nvar fuelv = 25\nfunc t(n int) {\n\tprintln(n)\n}\nfunc c(k int) bool {\n\tcnt++\n\treturn (cnt*7+k)%3 != 0\n}\nfunc fuel() bool {\n\tfuelv--\n\treturn fuelv < 0\n}\n"
+const cfPrelude = "func tag(n int) int {\n\tprintln(n)\n\treturn n % 3\n}\nvar rs0 = []int{}\nvar rs1 = []int{7}\nvar rs2 = []int{4, 5, 6}\nvar cnt = 0\nvar fuelv = 25\nfunc t(n int) {\n\tprintln(n)\n}\nfunc c(k int) bool {\n\tcnt++\n\treturn (cnt*7+k)%3 != 0\n}\nfunc fuel() bool {\n\tfuelv--\n\treturn fuelv < 0\n}\n"
 
 func funcBody(ins []goat.VerifInstr) []goat.VerifInstr {
 	if len(ins) == 0 || ins[0].Code != "FUNC" {
@@ -409,9 +482,45 @@ func (c *Ctx) c06One(s *cfStmt, sample bool) (lines, impl []string) {
 				nr++
 			}
 		}
+		tagLeaf := map[string]bool{}
+		caseOf := map[string][2]string{} // c<id> -> (tag id, values)
+		for k := range leaves {
+			switch k[0] {
+			case 'T':
+				tagLeaf["a"+k[1:]] = true
+			case 'V':
+				f := strings.SplitN(k[1:], "=", 3)
+				caseOf["c"+f[0]] = [2]string{f[1], f[2]}
+			}
+		}
+		// the hidden slot of a tagged switch: the LOCALSET that follows the call tag(n) in the real code
+		hidden := map[string]int{}
+		for i := 0; i+3 < len(real); i++ {
+			if real[i].Code == "PUSH" && tagLeaf[fmt.Sprintf("a%d", real[i].A)] && real[i+3].Code == "LOCALSET" {
+				hidden[fmt.Sprint(real[i].A)] = real[i+3].A
+			} else if real[i].Code == "PUSH" && tagLeaf[fmt.Sprintf("a%d", real[i].A)] && real[i+2].Code == "LOCALSET" {
+				hidden[fmt.Sprint(real[i].A)] = real[i+2].A
+			}
+		}
 		for _, k := range sortedKeys(leaves) {
 			var leafSrc string
+			if cv, ok := caseOf[k]; ok { // value; LOCALGET hidden; EQ, several values chained by OR
+				var w []string
+				vals := strings.Split(cv[1], "_")
+				for j, v := range vals {
+					if j > 0 {
+						w = append(w, "OR:3:0:0:0")
+					}
+					w = append(w, fmt.Sprintf("PUSH:%s:0:0:0", v), fmt.Sprintf("LOCALGET:%d:0:0:0", hidden[cv[0]]), "EQ:0:0:0:0")
+				}
+				lt = append(lt, k+"="+strings.Join(w, ","))
+				continue
+			}
 			switch {
+			case k[0] == 'T' || k[0] == 'V':
+				continue
+			case tagLeaf[k]:
+				leafSrc = fmt.Sprintf("func w() int {\nreturn tag(%s)\n}\n", k[1:])
 			case k[0] == 'i':
 				continue
 			case items[k] != "":
@@ -428,8 +537,11 @@ func (c *Ctx) c06One(s *cfStmt, sample bool) (lines, impl []string) {
 				return
 			}
 			lb := funcBody(li)
-			if k[0] == 'c' || items[k] != "" {
+			if k[0] == 'c' || items[k] != "" || tagLeaf[k] {
 				lb = lb[:len(lb)-1] // drop RETURN
+			}
+			if tagLeaf[k] {
+				lb = append(lb, goat.VerifInstr{Code: "LOCALSET", A: hidden[k[1:]]})
 			}
 			var w []string
 			for _, i := range lb {
@@ -475,7 +587,7 @@ func (c *Ctx) c06One(s *cfStmt, sample bool) (lines, impl []string) {
 }
 
 func runC06(c *Ctx) error {
-	c.Rep.Rule = "control skeletons over the forms {simple statement, sequence, if/else, if, for with condition (with and without init/post), for {}, for k, v := range over slices of 0, 1 and 3 elements, tagless switch with 1..3 clauses and an optional default written at any position, break, continue, return (bare or after a statement)} with a fuel guard at every loop head: all skeletons of depth <= 2 over a reduced alphabet plus random ones to depth 5; for each: the compiled function body (optimizer off and on) compared with the model's assembly, and the printed trace compared with a native interpreter of Go's semantics; plus Go-toolchain runs of generated programs with switch/range/return; distinct = distinct skeleton; non-trivial = contains a loop with break or continue"
+	c.Rep.Rule = "control skeletons over the forms {simple statement, sequence, if/else, if, for with condition (with and without init/post), for {}, for k, v := range over slices of 0, 1 and 3 elements, tagless switch with 1..3 clauses and an optional default written at any position, tagged switch (tag evaluated once into the hidden slot, clauses with 1..3 values chained by OR), break, continue, return (bare or after a statement)} with a fuel guard at every loop head: all skeletons of depth <= 2 over a reduced alphabet plus random ones to depth 5; for each: the compiled function body (optimizer off and on) compared with the model's assembly, and the printed trace compared with a native interpreter of Go's semantics; plus Go-toolchain runs of generated programs with switch/range/return; distinct = distinct skeleton; non-trivial = contains a loop with break or continue"
 	n := 300
 	if c.Thorough() {
 		n = 12000
@@ -492,6 +604,9 @@ func runC06(c *Ctx) error {
 		c.Rep.Seen(body, strings.Contains(body, "for") && (strings.Count(body, "break") > strings.Count(body, "for") || strings.Contains(body, "continue")))
 		if strings.Contains(body, "range") {
 			c.Rep.Count("skeleton-with-range")
+		}
+		if strings.Contains(body, "switch tag(") {
+			c.Rep.Count("skeleton-with-tagged-switch")
 		}
 		if strings.Contains(body, "switch {") {
 			c.Rep.Count("skeleton-with-switch")
